@@ -93,6 +93,12 @@ add("C13", "exploration",
     "Stacksize::NotSet excluded (not one of the five sizes, never installed by load); RAM images beyond head+tail pattern and longer stimulus sequences are outside the verdict.",
     "DESIGN.md 3/C13")
 
+add("C12", "model_checking",
+    "exhaustive enumeration of run schedules (program x configuration x every budget 0..40/60 x every sub-multiset of interrupt cycles x every sub-multiset of reset cycles from the boundary sets) on the real RunnerConfig::run against a reference loop over the public Machine API; all expectation subsets x match/mismatch for verify(); stdout and exit status of the real binary per invocation",
+    "emulated_cycles and the whole final Machine (PartialEq) equal REF-RUN's for every schedule; RunExpectations::verify is Ok exactly when every stated field matches and reports a stated mismatching field; the binary prints those cycle/state/FE/FF values, accepts numeric flags in all three radices up to 255, rejects 256/0x100, and exits non-zero exactly on read, parse or verification failure.",
+    "Trusted: REF-RUN (the statement's loop); parse/compile are shared with the subject (C02/C03); CLI argument errors only need to exit non-zero without running.",
+    "DESIGN.md 3/C12")
+
 NOT_YET = {}
 
 def main():
